@@ -8,6 +8,7 @@ mod run;
 mod compile;
 mod num;
 mod json;
+mod orders;
 
 fn main() {
     let args: Vec<String> = std::env::args().collect();
@@ -21,6 +22,7 @@ fn main() {
         "compile" => compile::main(&rest),
         "num" => num::main(&rest),
         "json" => json::main(&rest),
+        "orders" => orders::main(&rest),
         _ => {
             eprintln!("usage: th <engine> <args..>");
             2
